@@ -75,6 +75,29 @@ def m_done(s, av):
     if s.concrete is None and not s.check(): raise PathEnd('infeasible')
     s.events.append(('done',)); return None
 
+@model('vp_mark')
+def m_mark(s, av):
+    s.extra['leak_mark'] = s.heap; return None
+
+@model('vp_leakcheck')
+def m_leakcheck(s, av):
+    # every heap block allocated since vp_mark() must have been released
+    mark = s.extra.get('leak_mark', 0); live = []
+    import bisect
+    i = bisect.bisect_left(s.abase, mark)
+    for k in range(i, len(s.abase)):
+        inf = s.ainfo[k]
+        if inf[2] == 'heap' and inf[1]: live.append((s.abase[k], inf[0], inf[3]))
+    s.stats['leakchecks'] += 1
+    if live:
+        sites = {}
+        for b, n, site in live: sites.setdefault(site, [0, 0]); sites[site][0] += 1; sites[site][1] += n
+        top = sorted(sites.items(), key=lambda kv: -kv[1][1])[:4]
+        s.violation('leak', '%d block(s) / %d bytes not released; allocated in: %s' % (len(live), sum(n for _, n, _ in live), '; '.join('%s x%d' % (k, v[0]) for k, v in top)))
+    else:
+        s.events.append(('assert', 9000, 'leakcheck'))
+    return None
+
 @model('vp_symbolic')
 def m_symbolic(s, av): return 1
 
